@@ -176,16 +176,24 @@ func constCondFrom(b, pred *ssa.BasicBlock) (bool, bool) {
 // AlwaysBefore reports whether every path from the function entry to target passes an
 // instruction satisfying pred first (pred "dominates" target, possibly through several sites).
 func AlwaysBefore(fn *ssa.Function, target ssa.Instruction, pred func(ssa.Instruction) bool) bool {
-	return ReachFromEntry(fn, PathQuery{
+	px := liftPred(pred, LiftDepth) // a call of a helper that always executes pred counts as pred
+	if ReachFromEntry(fn, PathQuery{
 		Target: func(i ssa.Instruction) bool { return i == target },
-		Avoid:  func(i ssa.Instruction) bool { return i != target && pred(i) },
-	}) == nil
+		Avoid:  func(i ssa.Instruction) bool { return i != target && px(i) },
+	}) == nil {
+		return true
+	}
+	// the target sits in an extracted helper: every call site of the helper must be preceded by pred
+	if target != nil && target.Parent() == fn {
+		return liftedAlwaysBefore(target, pred, LiftDepth)
+	}
+	return false
 }
 
 // AlwaysAfter reports whether every path from ins to a function exit passes an
 // instruction satisfying pred. Deferred calls are not considered here (see DeferredCalls).
 func AlwaysAfter(ins ssa.Instruction, pred func(ssa.Instruction) bool) bool {
-	return ReachAfter(ins, PathQuery{Target: IsExit, Avoid: pred}) == nil
+	return ReachAfter(ins, PathQuery{Target: IsExit, Avoid: liftPred(pred, LiftDepth)}) == nil
 }
 
 // NeverAfter reports whether no path from ins reaches an instruction satisfying pred.
@@ -406,12 +414,11 @@ func StringConst(v ssa.Value) (string, bool) {
 
 // GuardedBy reports whether some guard of ins, in relational form, satisfies pred.
 func GuardedBy(ins ssa.Instruction, pred func(Rel) bool) bool {
-	for _, g := range GuardsOf(ins) {
-		if pred(g.Rel()) {
-			return true
-		}
+	if guardedByIntra(ins, pred) {
+		return true
 	}
-	return false
+	// ins sits in an extracted helper: the guard may hold at every call site of the helper
+	return liftedGuardedBy(ins, pred, LiftDepth)
 }
 
 // GuardedByTrue reports whether ins executes only when boolean value v (as identified by
